@@ -84,32 +84,54 @@ fn instances_tok(l: &[InstanceInformation]) -> String {
 }
 
 thread_local! {
-    static ASYNC_TWIN: std::cell::Cell<bool> = std::cell::Cell::new(false);
+    // 0 = sync listener, 1 = tokio listener, 2 / 3 = the same with a discovery channel whose receiver is gone
+    static INGEST_MODE: std::cell::Cell<u8> = std::cell::Cell::new(0);
 }
 
-/// add_response_to_resources of the sync listener, or (when the twin run is active) of the tokio listener, which is a
-/// separate copy of the same logic
+/// add_response_to_resources of the sync listener or of the tokio listener (a separate copy of the same logic), with a
+/// live discovery channel or with one whose receiver was dropped
 fn ingest(store: &mut Store, p: Packet, svc: &simple_dns::Name, full: &simple_dns::Name) -> Vec<InstanceInformation> {
-    if ASYNC_TWIN.with(|c| c.get()) {
-        let rt = tokio::runtime::Builder::new_current_thread().build().expect("tokio runtime");
-        rt.block_on(store.add_response_async(p, svc, full, true))
-    } else {
-        store.add_response(p, svc, full, true)
+    let rt = || tokio::runtime::Builder::new_current_thread().build().expect("tokio runtime");
+    match INGEST_MODE.with(|c| c.get()) {
+        0 => store.add_response(p, svc, full, true),
+        1 => rt().block_on(store.add_response_async(p, svc, full, true)),
+        2 => {
+            store.add_response_closed_channel(p, svc, full);
+            Vec::new()
+        }
+        _ => {
+            rt().block_on(store.add_response_closed_channel_async(p, svc, full));
+            Vec::new()
+        }
     }
 }
 
-/// runs `f` with the sync listener's ingest and again with the tokio twin's; the two outputs must be identical
+/// what the store holds afterwards (the segments that do not report channel notifications)
+fn state_segments(out: &str) -> Vec<&str> {
+    out.split(" | ").filter(|s| s.starts_with("K ") || s.starts_with("Q ") || s.starts_with("R ")).collect()
+}
+
+/// runs `f` with the sync listener's ingest and again with the tokio twin's: the outputs must be identical; and with a
+/// closed discovery channel: what ends up in the store must not depend on whether anybody still listens
 fn with_twin(f: impl Fn() -> String) -> String {
-    ASYNC_TWIN.with(|c| c.set(false));
-    let a = f();
-    ASYNC_TWIN.with(|c| c.set(true));
-    let b = f();
-    ASYNC_TWIN.with(|c| c.set(false));
-    if a == b {
-        a
-    } else {
-        format!("TWIN-MISMATCH sync=[{}] tokio=[{}]", a, b)
+    let run = |m: u8| {
+        INGEST_MODE.with(|c| c.set(m));
+        let r = f();
+        INGEST_MODE.with(|c| c.set(0));
+        r
+    };
+    let a = run(0);
+    let b = run(1);
+    if a != b {
+        return format!("TWIN-MISMATCH sync=[{}] tokio=[{}]", a, b);
     }
+    for m in [2u8, 3] {
+        let c = run(m);
+        if state_segments(&a) != state_segments(&c) {
+            return format!("CHANNEL-MISMATCH mode={} live=[{}] closed=[{}]", m, a, c);
+        }
+    }
+    a
 }
 
 pub fn run_store_toks(args: &[&str]) -> String {
